@@ -28,7 +28,7 @@ import numpy as np
 from harness import core, translate
 from harness.core import f2b
 
-MODULES = ["AdaptiveProofs.Props.C20", "AdaptiveProofs.Lemmas.Choose"]
+MODULES = ["AdaptiveProofs.Props.C20", "AdaptiveProofs.Lemmas.Choose", "AdaptiveProofs.Props.C20More"]
 REL = 1e-9          # the property's tolerance ("to rounding")
 BAND = 1e-6         # guard band around the thresholds of the tolerance-guarded predicates
 
@@ -258,6 +258,16 @@ def choose_case(seed):
     from harness import choose_corr
     lines, impl, stats = choose_corr.harness_case(seed)
     return {"lines": lines, "impl": impl, "meta": {"kind": "choose2", "seed": seed, "stats": stats}}
+
+
+def prims2_case(seed):
+    """the hand models of AdaptiveModel/Prims2.lean (Learner2D area / uniform / surface loss / choose_point_in_triangle, 1-D resolution
+    and curvature losses, LearnerND default_loss on a 2-D domain incl. numpy's LU determinant, Triangulation.orientation) against
+    the real functions: bit for bit, or within the measured ulp bound where libm / BLAS paths differ"""
+    warnings.simplefilter("ignore")
+    from harness import prims2_corr
+    lines, impl, stats = prims2_corr.harness_case(seed)
+    return {"lines": lines, "impl": impl, "meta": {"kind": "prims2", "seed": seed, "stats": stats}}
 
 
 def cmp_bits(a, b):
@@ -998,8 +1008,15 @@ def run(ctx):
         for k, v in c["meta"]["stats"].items():
             corr2.count(k, v)
     core.lockstep(corr2, ccases, cmp=cmp_bits, shards=ctx.n(2, 8))
+    corr3 = core.Corr("Learner2D / 1-D cut-off / N-D default loss / orientation primitives ~ Prims2.lean at Float (bit level or measured ulp bound)")
+    pcases = core.pmap(prims2_case, [ctx.rng.randrange(1 << 30) for _ in range(ctx.n(12, 200))])
+    for c in pcases:
+        for k, v in c["meta"]["stats"].items():
+            if k.count(":") == 1:
+                corr3.count(k, v)
+    core.lockstep(corr3, pcases, cmp=cmp_bits, shards=ctx.n(2, 8))
     # 4. search
-    deep = not proof.ok or not corr.ok or not corr2.ok
+    deep = not proof.ok or not corr.ok or not corr2.ok or not corr3.ok
     per_unit = ctx.n(200, 6000) * (3 if deep else 1)
     items = [(name, ctx.rng.randrange(1 << 30)) for name, (_, w) in ORACLES.items() for _ in range(per_unit * w)]
     results = core.pmap(oracle_item, items)
@@ -1011,7 +1028,7 @@ def run(ctx):
                          "detail": json.dumps(oe)[:1200], "replay": oe})
     calls = {fn: st["calls"] for fn, st in sorted(per.items())}
     return core.conclude(
-        ctx, proof, [corr, corr2], failures,
+        ctx, proof, [corr, corr2, corr3], failures,
         rule="seeded inputs (small dyadic rationals, the same scaled by 2^k, generic doubles), non-degenerate simplices "
              "(|det| >= 1e-3 x product of edge norms), query points built from barycentric coordinates inside / outside / next "
              "to faces, dims 1-5; non-trivial = distinct protocol-line sequence (correspondence) / oracle item that reached a check",
@@ -1032,6 +1049,11 @@ def run(ctx):
             "hand-written model AdaptiveModel/Choose.lean of learnerND.choose_point_in_simplex for triangles (centroid = ((a+b)+c)/3, "
             "first-maximum argmax over the 3x3 distance matrix, np.dot / np.linalg.solve with a DIAGONAL transform), tied bit for bit "
             "on 10 categories of triangles x 4 transforms; dimension 3 and non-diagonal transforms are not modelled",
+            "hand-written models AdaptiveModel/Prims2.lean (Learner2D areas / uniform_loss / minimize_triangle_surface_loss / "
+            "choose_point_in_triangle per triangle, 1-D resolution and curvature losses, LearnerND default_loss on a 2-D domain = Cayley-Menger "
+            "determinant, Triangulation.orientation with its absolute log-det cut) tied at Float; numpy.linalg.det is emulated (left-looking LU "
+            "with fused multiply-add, sign * exp(sum of logs): Drv/NumpyDet.lean) for the bit-exact tie of default_loss, while the THEOREMS are about "
+            "the exact cofactor determinant",
             "sqrt satisfies Prims.SqrtLaw (non-negative; squares back on non-negative arguments) — holds for Real.sqrt",
         ],
         assumptions=["non-degenerate inputs (non-zero determinant of the edge vectors), finite coordinates",
